@@ -2,7 +2,7 @@ from registry import reg, Check
 
 reg(Check(
     "C19", "c19",
-    coq_targets=["Path/C19Check.vo", "Props/C19.vo"],
+    coq_targets=["Path/C19Check.vo", "Path/C19CheckProofs.vo", "Props/C19.vo"],
     assumptions=[
         "key maps of path elements have pairwise distinct key names (they are Go maps)",
         "client query elements are valid UTF-8 (the ygot parser ranges over runes and replaces invalid bytes by U+FFFD; the byte-level model is compared with the implementation on valid UTF-8 only)",
